@@ -208,6 +208,24 @@ PROPS = {
                         "atom serial numbers, conformer modifications, remarks, database references and bonds are not written to mmCIF and are not compared",
                         "magnitudes below 2^63 / 10^5 (print_float goes through isize)"],
     },
+    "C15": {
+        "translators": ["t2a", "t2b", "t2c"],
+        "count": {"quick": 40, "thorough": 400},
+        "rule": "PDB: record lists from the C01 generator (metadata, 0-3 models, hydrogens by element column on about one atom in fourteen and "
+                "forced on the first atom of every second file, blank chain ids, serial wrap) rendered with arbitrary justification; mmCIF: "
+                "documents from the C02 generator (hydrogen rows forced on the first row of every model in every second document) in arbitrary "
+                "layouts; each text read under all 2^3 option sets at the loose level: the full outcome compared with the reader model, the "
+                "structure and metadata compared with the specification applied to the filtered records / rows (hydrogens removed, first model, "
+                "no metadata).  54 file-name shapes (upper / lower / mixed case extensions, pdb1, mmcif, .gz, multiple dots, no extension, hidden "
+                "files, dots in directories, trailing dot or blank, non-ASCII): for open, the file is filled in turn with PDB text, mmCIF text and "
+                "their gzip forms and the (format, compression) for which read(path) equals reading the bytes directly is compared with the name "
+                "model; a missing file must be an error; for save and save_gz the written (decompressed) content is compared with the raw "
+                "writers.  non-trivial = option set other than 0 / every name; distinct = distinct case line",
+        "assumptions": ["paths are '/'-separated, without a trailing separator and without '.' / '..' components",
+                        "a hydrogen is an ATOM / HETATM record whose element column reads H (a row whose type_symbol reads H): the notion the readers use; hydrogens recognisable only by their name are not discarded by either side",
+                        "metadata records precede the coordinates (only_first_model stops reading at the second MODEL record) and the rows of one mmCIF model are contiguous",
+                        "the PDB theorem excludes hydrogen lines that also carry a lexing diagnostic (their diagnostic is reported even though the atom is discarded)"],
+    },
     "C06": {
         "translators": ["t7", "t2a", "t2b", "t2c"],
         "profiles": ["release", "checked"],
